@@ -209,6 +209,9 @@ func vTO2UntilProveDevice(kind int, nopanic bool) {
 	var cred *DeviceCredential
 	var terr error
 	panicked := vRun(nopanic, func() { cred, terr = TO2(context.Background(), adv, to1d, cfg) })
+	if adv.gotHello {
+		verif.Assert(verif.IsFreshRandom(adv.hello.NonceTO2ProveOV[:]), "the HelloDevice nonce is fresh randomness of this run (a recorded owner proof cannot be replayed)")
+	}
 	if !adv.sentType(protocol.TO2ProveDeviceMsgType) {
 		verif.Assert(panicked || (cred == nil && terr != nil), "a peer that is not accepted makes TO2 return an error and no credential")
 		verif.Reached("not accepted")
